@@ -194,7 +194,9 @@ func c13GuidCase(c *h.Ctx, k *c13Case) {
 	c.Exec(2)
 	// (2) fields -> packet, fields -> every text
 	gf := &guid.GUID{A: uint32(c13U64(k.F["a"])), B: uint16(c13U64(k.F["b"])), C: uint16(c13U64(k.F["c"])), D: uint16(c13U64(k.F["d"])), E: c13U64(k.F["e"])}
-	if w := gf.ToBytes(); !bytes.Equal(w, k.W) {
+	wOut := gf.ToBytes()
+	c.Retain("guid.GUID.ToBytes", wOut, smp)
+	if w := wOut; !bytes.Equal(w, k.W) {
 		c.Fail("guid.GUID.ToBytes", "layout:"+c13WireRegion(w, k.W), fmt.Sprintf("%s: spec %x code %x", canon, []byte(k.W), w), smp)
 	}
 	c.Exec(1)
@@ -306,6 +308,7 @@ func c13Common(c *h.Ctx, k *c13Case, smp map[string]interface{}) c13UUID {
 	}
 	m, err := u.Marshal()
 	c.Exec(1)
+	c.Retain(typ+".Marshal", m, smp)
 	if err != nil || !bytes.Equal(m, k.B) {
 		c.Fail(typ+".Marshal", "roundtrip:bytes", fmt.Sprintf("Unmarshal(%x) then Marshal = %x (%v)", []byte(k.B), m, err), smp)
 	}
